@@ -60,7 +60,7 @@ def run(prop, tier, seed, replay):
         import props_core as PC
         cases_path = os.path.join(work, "cases.ndjson")
         open(cases_path, "w").close()
-        profs = [(PC.CORE, "fault_q"), (PC.CORE, "redir_q"), (PC.CHAIN, "chain_q"), ("MC_Npm.tla", "npm_q")] + ([(PC.CORE, "redir_t"), (PC.CHAIN, "chain_t"), ("MC_Npm.tla", "npm_t")] if tier == "thorough" else [])
+        profs = [(PC.CORE, "fault_q"), (PC.CORE, "redir_q"), (PC.CHAIN, "chain_q"), ("MC_Npm.tla", "npm_q"), ("MC_Fin.tla", "fin_q")] + ([(PC.CORE, "redir_t"), (PC.CHAIN, "chain_t"), ("MC_Npm.tla", "npm_t"), ("MC_Fin.tla", "fin_t")] if tier == "thorough" else [])
         for mod, cfgname in profs:
             r = P.tlc_mc(os.path.join(MC, mod), os.path.join(MC, cfgname + ".cfg"), work, workers=min(8, P.NCPU), timeout=7200)
             if r["errors"]:
@@ -80,8 +80,7 @@ def run(prop, tier, seed, replay):
             case_lines = fh.readlines()
         for m in res["mismatches"]:
             if "C03" in m.get("prop", []) or m["what"] == "graph":
-                out.violation(f"{m['what']} {m.get('path', '')} case {m['case']} kind {m['kind']}",
-                              dict(property=prop, source="replay-core", mismatch=m, case=json.loads(case_lines[m["case"]])))
+                P.absorb_replay_mismatch(out, prop, m, json.loads(case_lines[m["case"]]))
         samples.append({"world": json.loads(case_lines[0])["w"]})
 
     # ---- graph level: instrumented builds of registry worlds, validated by T_Jsr
